@@ -268,6 +268,14 @@ func c15Read(run *ev.Run, env *c15Env, p c15P, reuse bmc.SensorReader) bmc.Senso
 	rec.AnalogDataFormat = ipmi.AnalogDataFormat(p.Format)
 	rec.Linearisation = ipmi.Linearisation(p.Lin)
 	rec.M, rec.B, rec.BExp, rec.RExp = int16(p.M), int16(p.B), int8(p.K1), int8(p.K2)
+	// the record's descriptive fields (advertised range, nominal and normal readings,
+	// tolerance, accuracy) take arbitrary values: none of them enters the conversion
+	h := uint32(p.Raw*131 + p.M*31 + p.B*17 + p.K1*7 + p.K2*3 + p.Lin*1009 + p.Format*77 + p.Flags)
+	h ^= h >> 7
+	rec.SensorMax, rec.SensorMin = uint8(h), uint8(h>>8)
+	rec.NominalReading, rec.NormalMax, rec.NormalMin = uint8(h>>5), uint8(h>>11), uint8(h>>3)
+	rec.NominalReadingSpecified, rec.NormalMaxSpecified, rec.NormalMinSpecified = h&1 != 0, h&2 != 0, h&4 != 0
+	rec.Tolerance, rec.Accuracy, rec.AccuracyExp = uint8(h>>9)&0x3f, int16(h>>4)%512, uint8(h>>13)&3
 	desc := fmt.Sprintf("raw %#x format %d L %d flags %#x M %d B %d K1 %d K2 %d", p.Raw, p.Format, p.Lin, p.Flags, p.M, p.B, p.K1, p.K2)
 	if (p.Raw+p.M+p.K1)&1 == 0 {
 		// the record arrives the way it does in use: decoded from its wire form
